@@ -6,12 +6,12 @@
      every thread's events, read results and final observation are those of its solo run --
      whether the calls work on different parsed statements or share one.
    [C10_full_if_no_findings] is that statement under the obligation "no findings at all".
-   Proved unconditionally for today's tree: [C10_partial] = the same conclusion for calls that
-   work on DIFFERENT parsed statements.  Missing for the full statement: the known tree-write
-   sites listed by [C10_known_sites] (explainInsertQuery / explainExplainQuery edit the caller's
-   tree and restore it by defer); [C10_shared_statement_refuted] shows in the model that one such
-   write on a shared statement breaks both race freedom and the equality with the solo run, and
-   [C10_shared_writes_only_at_known_sites] that there is no other shared write. *)
+   [C10_concurrent_calls_behave_as_alone] discharges that obligation for the current tree.
+   [C10_partial] is the same conclusion for calls that work on DIFFERENT parsed statements (it needs
+   only "no package-level writes").  [C10_known_sites] lists tree-write sites that are listed as
+   open known findings (none today); [C10_shared_statement_refuted] shows in the model that one
+   such write on a shared statement breaks both race freedom and the equality with the solo run,
+   and [C10_shared_writes_only_at_known_sites] that there is no other shared write. *)
 From Coq Require Import String List.
 From DC Require Import Conc.SharedInv Conc.ConcModel Conc.Interleave Conc.SharedCheck Conc.SharedObligations.
 From DC Require Import Gen.SharedAccess Gen.SharedAllowed.
@@ -56,6 +56,18 @@ Theorem C10_full_if_no_findings :
 Proof. exact SharedObligations.C10_full_if_no_findings. Qed.
 Print Assumptions C10_full_if_no_findings.
 
+(* The full statement for the current tree: the generated inventory has no shared write at all
+   (the per-run obligation [C10_no_findings = true] is discharged by vm_compute on the inventory
+   regenerated from /repo), hence every set of concurrent calls — on different parsed statements or
+   on the same one — behaves as each call alone and is race free.  A new write to a package-level
+   variable or through an AST argument makes [C10_no_findings] compute to false and this theorem
+   stops compiling. *)
+Theorem C10_concurrent_calls_behave_as_alone :
+  forall at_site ts, conforms inventory at_site ts -> concurrent_calls_behave_as_alone ts.
+Proof. exact (SharedObligations.C10_full_if_no_findings (eq_refl : C10_no_findings = true)). Qed.
+Print Assumptions C10_concurrent_calls_behave_as_alone.
+
+(* What a shared write would do (the defect class fixed in /repo commits 48df07a2e and a9fde9fa2): *)
 Theorem C10_shared_statement_refuted :
   exists s c tr i o,
     run s (racy_threads, mem_format7) = (c, tr) /\
